@@ -149,11 +149,10 @@ Definition is_tmp (d : dname) : bool :=
 
 (* volatile content of file f in directory d *)
 Definition read_file (d : dname) (f : fname) (s : fs) : option data :=
-  match filter (fun o => d_is (d_vn o) d) s with
-  | o :: _ => match filter (fun x => f_is (f_vn x) f) (d_files o) with
-              | x :: _ => Some (f_vd x)
-              | [] => None
-              end
+  match flat_map (fun o => if d_is (d_vn o) d
+                           then flat_map (fun x => if f_is (f_vn x) f then [f_vd x] else []) (d_files o)
+                           else []) s with
+  | x :: _ => Some x
   | [] => None
   end.
 
